@@ -39,6 +39,7 @@ func register(e Engine) { engines[e.Name()] = e }
 func init() {
 	register(stepEngine{})
 	register(multiEngine{})
+	register(copyEngine{})
 }
 
 // ---------------------------------------------------------------------------
@@ -885,6 +886,17 @@ func writeEvidence(cfg checkCfg, seed uint64, st *Stats, batches int, wall float
 }
 
 var checkConfigs = map[string]checkCfg{
+	"C17": {
+		prop: "C17", engine: "copysim", level: "exploration", checksPerBatch: 10, minBatches: 16,
+		rule: "cases = histories of up to 10 operations {run program (heap builders x observers x mutators), Copy(node), generic mutation of the n-th reachable object, program aborted at step k, simultaneous programs on several nodes under the step scheduler} over a tree of up to 6 runtimes; after every operation every node's full heap dump (all objects reachable from the global object and intrinsics: class, extensibility, prototype link, property order, full descriptors, function source, primitive/date values; identity by discovery order) must equal the dump of its replay twin (a fresh runtime on which the node's lineage was re-executed), and every program must return the same result and host-call trace on node and twin; evaluations counts histories. distinct_nontrivial = distinct operation-kind sequences of histories that contain at least one Copy followed by a mutation or observation.",
+		assumptions: []string{
+			"the dumper observes only what scripts can observe; closures' captured variables are observed through registered peek functions, not structurally",
+			"Copy() is taken between top-level API calls (source at rest), including right after aborted programs; Copy() from inside a host function is not simulated",
+			"sampling, not proof",
+		},
+		real:      []string{"otto evaluator, built-ins, cloner (Copy), real goroutines in interleave operations"},
+		simulated: []string{"which runtime runs at each step (interleave)", "abort point of a program", "host functions (__vid/rec/emit)"},
+	},
 	"C20": {
 		prop: "C20", engine: "multisim", level: "exploration", checksPerBatch: 40, minBatches: 16,
 		rule: "cases = (template program, 1-3 shared Scripts/Programs, 2-5 tasks of mixed provenance {fresh, copy, copy of copy, live copy} each with 1-3 programs submitted by route {text, reader, shared Script, shared ast.Program, self-compiled}), run once interleaved at evaluation-step granularity under a seeded scheduler (uniform / burst / PCT priorities / serial) on real goroutines with the race detector armed, then each task alone; evaluations counts runs (1 interleaved + N solo per case). distinct_nontrivial = number of distinct schedule hashes (sequence of context switches) among interleaved runs with at least 2 switches while at least 2 runtimes were mid-program.",
